@@ -1982,7 +1982,7 @@ class mulgrid(object):
                 layer = self.layerlist[1] 
             else: layer = self.layer_containing_elevation(pos[2])
             if layer:
-                if (col.surface > layer.bottom):
+                if (col.surface > layer.bottom) and (pos[2] <= col.surface):
                     blkname = self.block_name(layer.name, col.name, blockmap)
         return blkname
 
@@ -1997,7 +1997,8 @@ class mulgrid(object):
             if layname in self.layer:
                 lay = self.layer[layname]
                 if col.surface > lay.bottom:
-                    if lay.contains_elevation(pos[2]):
+                    # block top is the column surface, for surface blocks:
+                    if lay.bottom <= pos[2] <= self.block_surface(lay, col):
                         result = col.contains_point(pos[0:2])
         return result
 
